@@ -423,7 +423,9 @@ pub fn pyverify(prop: &str, scen_path: &str, res_path: &str, tier: Tier, seed: u
                             f.extend(path_endpoints(&kit, &eval.sp, &sc.problem, p));
                             let lvs = eval.sp.get_longest_valid_segment_length();
                             for w in 0..p.len().saturating_sub(1) {
-                                let (run, _) = dense_invalid_run(&kit, &eval.sp, &eval, &kit.unflat(&p[w]), &kit.unflat(&p[w + 1]), lvs);
+                                let (sa, sb) = (kit.unflat(&p[w]), kit.unflat(&p[w + 1]));
+                                let (run_ab, _) = dense_invalid_run(&kit, &eval.sp, &eval, &sa, &sb, lvs);
+                                let run = if run_ab > 0.0 { run_ab.min(dense_invalid_run(&kit, &eval.sp, &eval, &sb, &sa, lvs).0) } else { 0.0 };
                                 if lvs > 0.0 && run >= lvs * (1.0 + 2.0 / 64.0) + 1e-9 {
                                     f.push(("invalid-stretch-on-segment".into(), format!("segment {w}: invalid stretch of length {run} (lvs {lvs})")));
                                 }
